@@ -54,6 +54,12 @@ pub fn long_token_inputs(top: u32) -> Vec<(String, String)> {
         ("dots", Box::new(|n| format!("1{}", ".".repeat(n)))),
         ("exponent", Box::new(|n| format!("1e{}", "9".repeat(n)))),
         ("number-in-sum", Box::new(|n| format!("1 + 0.{}1 * 2", "0".repeat(n)))),
+        // malformed numbers whose malformation comes after n fraction digits
+        ("fraction-then-e", Box::new(|n| format!("1.{}e", "0".repeat(n)))),
+        ("fraction-then-dot", Box::new(|n| format!("1.{}.", "0".repeat(n)))),
+        ("fraction-then-exponent", Box::new(|n| format!("0.{}1e5", "0".repeat(n)))),
+        ("fraction-then-dot-digit", Box::new(|n| format!("1.{}.5", "3".repeat(n)))),
+        ("integer-then-e", Box::new(|n| format!("{}e", "7".repeat(n)))),
         ("name-a", Box::new(|n| "a".repeat(n))),
         ("name-dots", Box::new(|n| format!("a{}", ".".repeat(n)))),
         ("name-underscores", Box::new(|n| "_".repeat(n))),
